@@ -277,353 +277,372 @@ func (d *driver) runMultiproof(w emitter, pid int, pr *proofProg) {
 			ys[i] = &y
 		}
 	}
-	polyTab := make([][][]int, len(polys))
-	for i := range polys {
-		polyTab[i] = vecReg(polys[i])
-	}
-	pidx := make([]int, n)
-	zz := make([]int, n)
-	for i, o := range pr.Ops {
-		pidx[i] = o.P
-		zz[i] = o.Z
-	}
-	csBefore := elemList(Cs)
-	fsBefore := make([][]fr.Element, len(polys))
-	for i := range polys {
-		fsBefore[i] = append([]fr.Element(nil), polys[i]...)
-	}
-	label := pr.Label
-	// ---- prove
-	e := ev{"ev": "prove", "prog": pid, "label": bytesToInts([]byte(label)), "polys": polyTab, "pidx": pidx, "zs": zz, "cs_before": csBefore,
-		"numcpu": runtime.NumCPU(), "gomaxprocs": runtime.GOMAXPROCS(0)}
-	ptr := common.NewTranscript(label)
-	var proof *multiproof.MultiProof
-	var err error
-	var ctl *gateCtl
-	if pr.Arrival == "" {
-		gateMu.RLock()
-	} else {
-		// Force the order in which the grouping workers hand over their results.  The controller makes no
-		// assumption about how the library splits the openings among workers: workers register at the gate and
-		// block; whenever the set of registered workers has been stable for a moment (or is complete), the
-		// controller releases them one at a time in the requested permutation of their batch starts, waiting for
-		// each hand-over to complete.  Workers that register later are handled in the next round.
-		gateMu.Lock()
-		ctl = newGateCtl(pr.Arrival)
-		multiproof.VerifGroupGate = ctl.gate
-		multiproof.VerifGroupSent = ctl.sent
-		go ctl.run()
-	}
-	func() {
-		defer func() {
-			if r := recover(); r != nil {
-				e["panic"] = fmt.Sprint(r)
-			}
-		}()
-		proof, err = multiproof.CreateMultiProof(ptr, cfg, Cs, fs, zs)
-	}()
-	if pr.Arrival == "" {
-		gateMu.RUnlock()
-	} else {
-		ctl.stop()
-		multiproof.VerifGroupGate, multiproof.VerifGroupSent = nil, nil
-		gateMu.Unlock()
-		e["arrival_forced"] = pr.Arrival
-		e["arrival_observed"] = ctl.observed
-		e["arrival_ok"] = ctl.inOrder
-		sort.Slice(ctl.batches, func(i, j int) bool { return ctl.batches[i][0] < ctl.batches[j][0] })
-		e["batches"] = ctl.batches
-	}
-	e["err"] = err != nil
-	e["cs_after"] = elemList(Cs)
-	same := true
-	for i := range polys {
-		for j := range polys[i] {
-			if polys[i][j] != fsBefore[i][j] {
-				same = false
-			}
+	round := func() {
+		polyTab := make([][][]int, len(polys))
+		for i := range polys {
+			polyTab[i] = vecReg(polys[i])
 		}
-	}
-	for i, o := range pr.Ops {
-		if int(zs[i]) != o.Z {
-			same = false
+		pidx := make([]int, n)
+		zz := make([]int, n)
+		for i, o := range pr.Ops {
+			pidx[i] = o.P
+			zz[i] = o.Z
 		}
-	}
-	e["inputs_unchanged"] = same
-	if err != nil || e["panic"] != nil || proof == nil {
-		if err != nil {
-			e["errmsg"] = err.Error()
+		csBefore := elemList(Cs)
+		fsBefore := make([][]fr.Element, len(polys))
+		for i := range polys {
+			fsBefore[i] = append([]fr.Element(nil), polys[i]...)
 		}
-		w.emit(e)
-		return
-	}
-	var buf bytes.Buffer
-	werr := proof.Write(&buf)
-	e["write_err"] = werr != nil
-	e["bytes"] = bytesToInts(buf.Bytes())
-	pc := ptr.ChallengeScalar([]byte("state"))
-	e["next"] = frReg(&pc)
-	e["proof"] = proofJSON(proof)
-	w.emit(e)
-
-	// ---- verify: honest, then every perturbation
-	verify := func(k int, what perturbSpec, lbl string, pf *multiproof.MultiProof, cs []*banderwagon.Element, yv []*fr.Element, zv []uint8) {
-		ve := ev{"ev": "verify", "prog": pid, "k": k, "what": what.What, "i": what.I, "to": what.To, "label": bytesToInts([]byte(lbl)),
-			"cs": elemList(cs), "ys": frPtrList(yv), "zs": bytesToInts(zv), "proof": proofJSON(pf)}
-		csB := elemList(cs)
-		pfB := cloneProof(pf)
-		ysB := frPtrList(yv)
-		vtr := common.NewTranscript(lbl)
-		var ok bool
-		var verr error
+		label := pr.Label
+		// ---- prove
+		e := ev{"ev": "prove", "prog": pid, "label": bytesToInts([]byte(label)), "polys": polyTab, "pidx": pidx, "zs": zz, "cs_before": csBefore,
+			"numcpu": runtime.NumCPU(), "gomaxprocs": runtime.GOMAXPROCS(0)}
+		ptr := common.NewTranscript(label)
+		var proof *multiproof.MultiProof
+		var err error
+		var ctl *gateCtl
+		if pr.Arrival == "" {
+			gateMu.RLock()
+		} else {
+			// Force the order in which the grouping workers hand over their results.  The controller makes no
+			// assumption about how the library splits the openings among workers: workers register at the gate and
+			// block; whenever the set of registered workers has been stable for a moment (or is complete), the
+			// controller releases them one at a time in the requested permutation of their batch starts, waiting for
+			// each hand-over to complete.  Workers that register later are handled in the next round.
+			gateMu.Lock()
+			ctl = newGateCtl(pr.Arrival)
+			multiproof.VerifGroupGate = ctl.gate
+			multiproof.VerifGroupSent = ctl.sent
+			go ctl.run()
+		}
 		func() {
 			defer func() {
 				if r := recover(); r != nil {
-					ve["panic"] = fmt.Sprint(r)
+					e["panic"] = fmt.Sprint(r)
 				}
 			}()
-			ok, verr = multiproof.CheckMultiProof(vtr, cfg, pf, cs, yv, zv)
+			proof, err = multiproof.CreateMultiProof(ptr, cfg, Cs, fs, zs)
 		}()
-		ve["ok"] = ok
-		ve["err"] = verr != nil
-		if ve["panic"] == nil {
-			vc := vtr.ChallengeScalar([]byte("state"))
-			ve["next"] = frReg(&vc)
+		if pr.Arrival == "" {
+			gateMu.RUnlock()
+		} else {
+			ctl.stop()
+			multiproof.VerifGroupGate, multiproof.VerifGroupSent = nil, nil
+			gateMu.Unlock()
+			e["arrival_forced"] = pr.Arrival
+			e["arrival_observed"] = ctl.observed
+			e["arrival_ok"] = ctl.inOrder
+			sort.Slice(ctl.batches, func(i, j int) bool { return ctl.batches[i][0] < ctl.batches[j][0] })
+			e["batches"] = ctl.batches
 		}
-		// purity of the verifier's inputs
-		a, _ := json.Marshal(csB)
-		b, _ := json.Marshal(elemList(cs))
-		c1, _ := json.Marshal(proofJSON(pfB))
-		c2, _ := json.Marshal(proofJSON(pf))
-		y1, _ := json.Marshal(ysB)
-		y2, _ := json.Marshal(frPtrList(yv))
-		ve["inputs_unchanged"] = bytes.Equal(a, b) && bytes.Equal(c1, c2) && bytes.Equal(y1, y2)
-		w.emit(ve)
-	}
-	verify(0, perturbSpec{What: "none"}, label, proof, Cs, ys, zs)
+		e["err"] = err != nil
+		e["cs_after"] = elemList(Cs)
+		same := true
+		for i := range polys {
+			for j := range polys[i] {
+				if polys[i][j] != fsBefore[i][j] {
+					same = false
+				}
+			}
+		}
+		for i, o := range pr.Ops {
+			if int(zs[i]) != o.Z {
+				same = false
+			}
+		}
+		e["inputs_unchanged"] = same
+		if err != nil || e["panic"] != nil || proof == nil {
+			if err != nil {
+				e["errmsg"] = err.Error()
+			}
+			w.emit(e)
+			return
+		}
+		var buf bytes.Buffer
+		werr := proof.Write(&buf)
+		e["write_err"] = werr != nil
+		e["bytes"] = bytesToInts(buf.Bytes())
+		pc := ptr.ChallengeScalar([]byte("state"))
+		e["next"] = frReg(&pc)
+		e["proof"] = proofJSON(proof)
+		w.emit(e)
 
-	// a second honest proof for splices (different label)
-	var proof2 *multiproof.MultiProof
-	for k, pt := range pr.Perturb {
-		cs := append([]*banderwagon.Element(nil), Cs...)
-		yv := make([]*fr.Element, n)
-		for i := range ys {
-			c := *ys[i]
-			yv[i] = &c
-		}
-		zv := append([]uint8(nil), zs...)
-		pf := cloneProof(proof)
-		lbl := label
-		i := 0
-		if n > 0 {
-			i = pt.I % n
-		}
-		j := pt.I % 8
-		otherPoint := func(e banderwagon.Element) banderwagon.Element {
-			switch pt.To {
-			case "+G":
-				var t banderwagon.Element
-				t.Add(&e, &banderwagon.Generator)
-				return t
-			case "id":
-				return banderwagon.Identity
-			case "neg":
-				var t banderwagon.Element
-				t.Neg(&e)
-				return t
-			case "proj":
-				return applyRep(e, "proj", rnd)
-			case "flip":
-				return applyRep(e, "flip", rnd)
-			default:
-				var t banderwagon.Element
-				t.Double(&e)
-				return t
+		// ---- verify: honest, then every perturbation
+		verify := func(k int, what perturbSpec, lbl string, pf *multiproof.MultiProof, cs []*banderwagon.Element, yv []*fr.Element, zv []uint8) {
+			ve := ev{"ev": "verify", "prog": pid, "k": k, "what": what.What, "i": what.I, "to": what.To, "label": bytesToInts([]byte(lbl)),
+				"cs": elemList(cs), "ys": frPtrList(yv), "zs": bytesToInts(zv), "proof": proofJSON(pf)}
+			csB := elemList(cs)
+			pfB := cloneProof(pf)
+			ysB := frPtrList(yv)
+			vtr := common.NewTranscript(lbl)
+			var ok bool
+			var verr error
+			func() {
+				defer func() {
+					if r := recover(); r != nil {
+						ve["panic"] = fmt.Sprint(r)
+					}
+				}()
+				ok, verr = multiproof.CheckMultiProof(vtr, cfg, pf, cs, yv, zv)
+			}()
+			ve["ok"] = ok
+			ve["err"] = verr != nil
+			if ve["panic"] == nil {
+				vc := vtr.ChallengeScalar([]byte("state"))
+				ve["next"] = frReg(&vc)
 			}
+			// purity of the verifier's inputs
+			a, _ := json.Marshal(csB)
+			b, _ := json.Marshal(elemList(cs))
+			c1, _ := json.Marshal(proofJSON(pfB))
+			c2, _ := json.Marshal(proofJSON(pf))
+			y1, _ := json.Marshal(ysB)
+			y2, _ := json.Marshal(frPtrList(yv))
+			ve["inputs_unchanged"] = bytes.Equal(a, b) && bytes.Equal(c1, c2) && bytes.Equal(y1, y2)
+			w.emit(ve)
 		}
-		otherScalar := func(s fr.Element) fr.Element {
-			one := fr.One()
-			switch pt.To {
-			case "+1":
-				var t fr.Element
-				t.Add(&s, &one)
-				return t
-			case "0":
-				return fr.Zero()
-			case "r-1":
-				return fr.MinusOne()
-			default:
-				return rnd.fr()
-			}
-		}
-		switch pt.What {
-		case "C":
-			c := otherPoint(*cs[i])
-			cs[i] = &c
-		case "Cother":
-			cs[i] = Cs[(i+1)%n]
-		case "z":
-			if pt.To == "other" {
-				zv[i] = zs[(i+1)%n]
-			} else {
-				zv[i] = zv[i] + 1
-			}
-		case "y":
-			if pt.To == "other" {
-				c := *ys[(i+1)%n]
-				yv[i] = &c
-			} else {
-				c := otherScalar(*yv[i])
+		verify(0, perturbSpec{What: "none"}, label, proof, Cs, ys, zs)
+
+		// a second honest proof for splices (different label)
+		var proof2 *multiproof.MultiProof
+		for k, pt := range pr.Perturb {
+			cs := append([]*banderwagon.Element(nil), Cs...)
+			yv := make([]*fr.Element, n)
+			for i := range ys {
+				c := *ys[i]
 				yv[i] = &c
 			}
-		case "D":
-			if pt.To == "L1" {
-				pf.D = pf.IPA.L[0]
-			} else {
-				pf.D = otherPoint(pf.D)
+			zv := append([]uint8(nil), zs...)
+			pf := cloneProof(proof)
+			lbl := label
+			i := 0
+			if n > 0 {
+				i = pt.I % n
 			}
-		case "L":
-			if pt.To == "R" {
-				pf.IPA.L[j], pf.IPA.R[j] = pf.IPA.R[j], pf.IPA.L[j]
-			} else if pt.To == "Lnext" {
-				pf.IPA.L[j], pf.IPA.L[(j+1)%8] = pf.IPA.L[(j+1)%8], pf.IPA.L[j]
-			} else {
-				pf.IPA.L[j] = otherPoint(pf.IPA.L[j])
+			j := pt.I % 8
+			otherPoint := func(e banderwagon.Element) banderwagon.Element {
+				switch pt.To {
+				case "+G":
+					var t banderwagon.Element
+					t.Add(&e, &banderwagon.Generator)
+					return t
+				case "id":
+					return banderwagon.Identity
+				case "neg":
+					var t banderwagon.Element
+					t.Neg(&e)
+					return t
+				case "proj":
+					return applyRep(e, "proj", rnd)
+				case "flip":
+					return applyRep(e, "flip", rnd)
+				default:
+					var t banderwagon.Element
+					t.Double(&e)
+					return t
+				}
 			}
-		case "R":
-			pf.IPA.R[j] = otherPoint(pf.IPA.R[j])
-		case "a":
-			pf.IPA.A_scalar = otherScalar(pf.IPA.A_scalar)
-		case "swap":
-			if n >= 2 {
-				k2 := (i + 1) % n
-				cs[i], cs[k2] = cs[k2], cs[i]
-				yv[i], yv[k2] = yv[k2], yv[i]
-				zv[i], zv[k2] = zv[k2], zv[i]
+			otherScalar := func(s fr.Element) fr.Element {
+				one := fr.One()
+				switch pt.To {
+				case "+1":
+					var t fr.Element
+					t.Add(&s, &one)
+					return t
+				case "0":
+					return fr.Zero()
+				case "r-1":
+					return fr.MinusOne()
+				default:
+					return rnd.fr()
+				}
 			}
-		case "drop":
-			cs, yv, zv = cs[:n-1], yv[:n-1], zv[:n-1]
-		case "dup":
-			cs, yv, zv = append(cs, cs[i]), append(yv, yv[i]), append(zv, zv[i])
-		case "label":
-			lbl = label + "'"
-		case "lenL":
-			if pt.To == "short" {
-				pf.IPA.L = pf.IPA.L[:7]
-			} else {
-				pf.IPA.L = append(pf.IPA.L, pf.IPA.L[0])
-			}
-		case "lenLR":
-			if pt.To == "short" {
-				pf.IPA.L, pf.IPA.R = pf.IPA.L[:7], pf.IPA.R[:7]
-			} else if pt.To == "empty" {
-				pf.IPA.L, pf.IPA.R = nil, nil
-			} else {
-				pf.IPA.L, pf.IPA.R = append(pf.IPA.L, pf.IPA.L[0]), append(pf.IPA.R, pf.IPA.R[0])
-			}
-		case "lenR":
-			pf.IPA.R = pf.IPA.R[:7]
-		case "lenC":
-			cs = cs[:n-1]
-		case "lenY":
-			yv = yv[:n-1]
-		case "lenZ":
-			zv = zv[:n-1]
-		case "zero":
-			cs, yv, zv = nil, nil, nil
-		case "splice":
-			if proof2 == nil {
-				t2 := common.NewTranscript(label + "-second")
-				cs2 := append([]*banderwagon.Element(nil), Cs...)
-				p2, e2 := multiproof.CreateMultiProof(t2, cfg, cs2, fs, zs)
+			switch pt.What {
+			case "C":
+				c := otherPoint(*cs[i])
+				cs[i] = &c
+			case "Cother":
+				cs[i] = Cs[(i+1)%n]
+			case "z":
+				if pt.To == "other" {
+					zv[i] = zs[(i+1)%n]
+				} else {
+					zv[i] = zv[i] + 1
+				}
+			case "y":
+				if pt.To == "other" {
+					c := *ys[(i+1)%n]
+					yv[i] = &c
+				} else {
+					c := otherScalar(*yv[i])
+					yv[i] = &c
+				}
+			case "D":
+				if pt.To == "L1" {
+					pf.D = pf.IPA.L[0]
+				} else {
+					pf.D = otherPoint(pf.D)
+				}
+			case "L":
+				if pt.To == "R" {
+					pf.IPA.L[j], pf.IPA.R[j] = pf.IPA.R[j], pf.IPA.L[j]
+				} else if pt.To == "Lnext" {
+					pf.IPA.L[j], pf.IPA.L[(j+1)%8] = pf.IPA.L[(j+1)%8], pf.IPA.L[j]
+				} else {
+					pf.IPA.L[j] = otherPoint(pf.IPA.L[j])
+				}
+			case "R":
+				pf.IPA.R[j] = otherPoint(pf.IPA.R[j])
+			case "a":
+				pf.IPA.A_scalar = otherScalar(pf.IPA.A_scalar)
+			case "swap":
+				if n >= 2 {
+					k2 := (i + 1) % n
+					cs[i], cs[k2] = cs[k2], cs[i]
+					yv[i], yv[k2] = yv[k2], yv[i]
+					zv[i], zv[k2] = zv[k2], zv[i]
+				}
+			case "drop":
+				cs, yv, zv = cs[:n-1], yv[:n-1], zv[:n-1]
+			case "dup":
+				cs, yv, zv = append(cs, cs[i]), append(yv, yv[i]), append(zv, zv[i])
+			case "label":
+				lbl = label + "'"
+			case "lenL":
+				if pt.To == "short" {
+					pf.IPA.L = pf.IPA.L[:7]
+				} else {
+					pf.IPA.L = append(pf.IPA.L, pf.IPA.L[0])
+				}
+			case "lenLR":
+				if pt.To == "short" {
+					pf.IPA.L, pf.IPA.R = pf.IPA.L[:7], pf.IPA.R[:7]
+				} else if pt.To == "empty" {
+					pf.IPA.L, pf.IPA.R = nil, nil
+				} else {
+					pf.IPA.L, pf.IPA.R = append(pf.IPA.L, pf.IPA.L[0]), append(pf.IPA.R, pf.IPA.R[0])
+				}
+			case "lenR":
+				pf.IPA.R = pf.IPA.R[:7]
+			case "lenC":
+				cs = cs[:n-1]
+			case "lenY":
+				yv = yv[:n-1]
+			case "lenZ":
+				zv = zv[:n-1]
+			case "zero":
+				cs, yv, zv = nil, nil, nil
+			case "splice":
+				if proof2 == nil {
+					t2 := common.NewTranscript(label + "-second")
+					cs2 := append([]*banderwagon.Element(nil), Cs...)
+					p2, e2 := multiproof.CreateMultiProof(t2, cfg, cs2, fs, zs)
+					if e2 != nil {
+						continue
+					}
+					proof2 = p2
+				}
+				if pt.To == "ipa" {
+					pf.IPA = cloneProof(proof2).IPA
+				} else {
+					pf.D = proof2.D
+				}
+			case "fake":
+				// a proof created for a DIFFERENT polynomial than the one committed to by Cs[i], with the matching claimed value
+				fs2 := append([][]fr.Element(nil), fs...)
+				if pt.To == "zero" {
+					fs2[i] = make([]fr.Element, 256)
+				} else {
+					g := append([]fr.Element(nil), fs[i]...)
+					one := fr.One()
+					g[(int(zs[i])+1)%256].Add(&g[(int(zs[i])+1)%256], &one)
+					if pt.To == "atz" {
+						g[zs[i]].Add(&g[zs[i]], &one)
+					}
+					fs2[i] = g
+				}
+				cs2 := make([]*banderwagon.Element, n)
+				for j := range cs {
+					c := *cs[j]
+					cs2[j] = &c
+				}
+				t2 := common.NewTranscript(label)
+				p2, e2 := multiproof.CreateMultiProof(t2, cfg, cs2, fs2, zs)
 				if e2 != nil {
 					continue
 				}
-				proof2 = p2
-			}
-			if pt.To == "ipa" {
-				pf.IPA = cloneProof(proof2).IPA
-			} else {
-				pf.D = proof2.D
-			}
-		case "fake":
-			// a proof created for a DIFFERENT polynomial than the one committed to by Cs[i], with the matching claimed value
-			fs2 := append([][]fr.Element(nil), fs...)
-			if pt.To == "zero" {
-				fs2[i] = make([]fr.Element, 256)
-			} else {
-				g := append([]fr.Element(nil), fs[i]...)
-				one := fr.One()
-				g[(int(zs[i])+1)%256].Add(&g[(int(zs[i])+1)%256], &one)
-				if pt.To == "atz" {
-					g[zs[i]].Add(&g[zs[i]], &one)
+				pf = p2
+				y2 := fs2[i][zs[i]]
+				yv[i] = &y2
+			case "forge":
+				// an adversarial prover (forgeProof below): it absorbs the statement exactly as the verifier will, lies about one
+				// claimed value, and builds g, h and the IPA proof as if the verifier ignored that claim
+				use := make([]bool, n)
+				for j := range use {
+					use[j] = true
 				}
-				fs2[i] = g
-			}
-			cs2 := make([]*banderwagon.Element, n)
-			for j := range cs {
-				c := *cs[j]
-				cs2[j] = &c
-			}
-			t2 := common.NewTranscript(label)
-			p2, e2 := multiproof.CreateMultiProof(t2, cfg, cs2, fs2, zs)
-			if e2 != nil {
-				continue
-			}
-			pf = p2
-			y2 := fs2[i][zs[i]]
-			yv[i] = &y2
-		case "forge":
-			// an adversarial prover (forgeProof below): it absorbs the statement exactly as the verifier will, lies about one
-			// claimed value, and builds g, h and the IPA proof as if the verifier ignored that claim
-			use := make([]bool, n)
-			for j := range use {
-				use[j] = true
-			}
-			lie := -1
-			eOwn := false
-			switch pt.To {
-			case "dupy", "dupy_first": // a repeated (commitment pointer, index) query: lie about the later (the first) occurrence, prove both as the true value
-				for a := 0; a < n && lie < 0; a++ {
-					for b := a + 1; b < n; b++ {
-						if cs[a] == cs[b] && zv[a] == zv[b] {
-							lie = b
-							if pt.To == "dupy_first" {
-								lie = a
+				lie := -1
+				eOwn := false
+				switch pt.To {
+				case "dupy", "dupy_first": // a repeated (commitment pointer, index) query: lie about the later (the first) occurrence, prove both as the true value
+					for a := 0; a < n && lie < 0; a++ {
+						for b := a + 1; b < n; b++ {
+							if cs[a] == cs[b] && zv[a] == zv[b] {
+								lie = b
+								if pt.To == "dupy_first" {
+									lie = a
+								}
+								break
 							}
-							break
 						}
 					}
-				}
-			case "drop0", "droplast", "dropz": // lie about one opening and leave it (all openings at its index) out of g, h and E
-				lie = 0
-				if pt.To == "droplast" {
-					lie = n - 1
-				}
-				use[lie] = false
-				if pt.To == "dropz" {
-					for j := range use {
-						if zv[j] == zv[lie] {
-							use[j] = false
+				case "drop0", "droplast", "dropz": // lie about one opening and leave it (all openings at its index) out of g, h and E
+					lie = 0
+					if pt.To == "droplast" {
+						lie = n - 1
+					}
+					use[lie] = false
+					if pt.To == "dropz" {
+						for j := range use {
+							if zv[j] == zv[lie] {
+								use[j] = false
+							}
 						}
 					}
+					eOwn = true
 				}
-				eOwn = true
+				if lie < 0 {
+					continue
+				}
+				one := fr.One()
+				y2 := *yv[lie]
+				y2.Add(&y2, &one)
+				yv[lie] = &y2
+				pf = forgeProof(cfg, lbl, cs, fs, zv, yv, use, eOwn)
+				if pf == nil {
+					continue
+				}
+			case "none":
 			}
-			if lie < 0 {
-				continue
-			}
-			one := fr.One()
-			y2 := *yv[lie]
-			y2.Add(&y2, &one)
-			yv[lie] = &y2
-			pf = forgeProof(cfg, lbl, cs, fs, zv, yv, use, eOwn)
-			if pf == nil {
-				continue
-			}
-		case "none":
+			verify(k+1, pt, lbl, pf, cs, yv, zv)
 		}
-		verify(k+1, pt, lbl, pf, cs, yv, zv)
+	}
+	round()
+	// second round on the SAME objects: one polynomial is changed in place, its commitment is recomputed into the same Element
+	// variables and the claimed values are updated through the same pointers; nothing may be remembered by pointer identity
+	if len(pr.Perturb) == 0 && pr.Arrival == "" && n <= 40 {
+		p0 := pr.Ops[0].P
+		one := fr.One()
+		polys[p0][pr.Ops[0].Z].Add(&polys[p0][pr.Ops[0].Z], &one)
+		polys[p0][(pr.Ops[0].Z+101)%256].Add(&polys[p0][(pr.Ops[0].Z+101)%256], &one)
+		nc := cfg.Commit(polys[p0])
+		for i, o := range pr.Ops {
+			if o.P == p0 {
+				*Cs[i] = applyRep(nc, o.Rep, rnd)
+				*ys[i] = polys[p0][o.Z]
+			}
+		}
+		round()
 	}
 }
 
